@@ -1069,8 +1069,10 @@ namespace sim
 
 #ifdef LIBSIMULATOR_VERIF
 		// verification hook: when set, run() executes ready handlers one at a
-		// time and calls this after each one
-		std::function<void()> verif_step_hook;
+		// time and calls this after each one. It returns true when it may have
+		// posted work itself (run() then makes sure that work is picked up
+		// before the clock moves)
+		std::function<bool()> verif_step_hook;
 #endif
 
 	private:
